@@ -296,6 +296,9 @@ func (c *Ctx) nativeMethod(iv IfaceV, name string) (func(c *Ctx, iv IfaceV, args
 		if !ok {
 			panic(c.abort("unmodelled tensor method %s", name))
 		}
+		if x.abs {
+			return func(c *Ctx, iv IfaceV, args []Value) Value { return c.absMethod(x, name) }, true
+		}
 		return func(c *Ctx, iv IfaceV, args []Value) Value {
 			c.E.Stubs["tensor."+name]++
 			fn := c.Prog.LookupMethod(iv.T, nil, name)
@@ -513,6 +516,9 @@ func (c *Ctx) registerTensorIntrinsics(tab map[string]intrinsicFn) {
 				panic(c.goPanic("nil *Dense receiver for %s", fn.Name()))
 			}
 			c.E.Stubs["tensor."+fn.Name()]++
+			if s.abs {
+				return c.absMethod(s, fn.Name())
+			}
 			return m(c, s, a[1:], fn.Signature)
 		}
 		tab["(*gorgonia.org/tensor.Dense)."+name] = h
